@@ -10,7 +10,7 @@ from hypothesis import strategies as st
 
 import cssutils
 from vlib import cssmodel as A
-from vlib.runner import h64, REPO, HarnessAbort, Sub, Violation, frame_sig
+from vlib.runner import h64, REPO, HarnessAbort, Sub, Violation, frame_sig, lib
 
 PROPERTY = 'C01'
 HANG_WATCH = 60  # seconds of CPU on one case after which the runner kills the worker and reports hang:cpu-bound
@@ -31,7 +31,13 @@ RULE = (
     'url, comment of asterisks, backslashes, digits ...) at n = 30, 300, 1500 (thorough up to 10000): same oracle, so recursion '
     'depth and cost must not grow with length. The runner watches every case from outside: a worker that is still computing on '
     'one case after 60 s of CPU time is killed and the case reported as hang:cpu-bound (regular-expression backtracking is '
-    'invisible to the call meter). Every case x (parseComments, validate '
+    'invisible to the call meter). validation / validation-mixed: every known property with 6..40 repetitions of one to three '
+    'terms (keywords named in its own tables, in any table, one token of every kind), separated by space, comma, slash, '
+    'hyphen or nothing (one long word), in a style rule, @font-face or @page: as soon as a size takes more than 0.25 s of CPU, '
+    'two more terms must not take more than three times as long (a table that matches a term in two ways doubles the time with '
+    'every term). growth: seven families whose cost no call meter sees (escapes in an open string, asterisks in an open comment, '
+    'font keywords, a variable that refers to itself in k rules, an import graph where each file imports the next twice): the '
+    'CPU time between two sizes k1 < k2 < 2*k1 must not rise like a polynomial of degree 6 or more. Every case x (parseComments, validate '
     'at parser and call level, entry point parseString / parseStyle / fresh or reused CSSParser, fetcher returning '
     'content / None / (None, None) / nothing, acyclic and cyclic @import graphs). Oracle: returns the DOM type, no '
     'exception; cssText works; parsing that serialisation and serialising again work; a deterministic cost meter '
@@ -41,7 +47,7 @@ RULE = (
 )
 ASSUMPTIONS = [
     'cost is measured in Python calls inside the cssutils package (deterministic), not in seconds; constants A=20000 B=3000 C=20 are >=10x the worst ratios measured on the repository sheets and on generated well-formed sheets',
-    'time spent inside C code (re) is only guarded by a 60 s alarm that makes the run inconclusive, never a violation',
+    'time spent inside C code (re) is seen by the watchdog (60 s of CPU on one case) and by the growth/validation subs, which compare CPU seconds (time.process_time, best of two) between two sizes: thresholds (0.25 s / 0.4 s floor, factor 3 for two more terms, degree 6) leave a factor >= 1.5 to what cubic behaviour gives',
     'undecodable byte input must raise UnicodeDecodeError or LookupError (the documented behaviour) and nothing else (UnicodeError covers the bare UnicodeError some stdlib codecs raise - undefined, punycode, idna; naming "css" itself raises ValueError, pinned by the suite); the exception must come from the decoding step',
     'function nesting is capped at depth 6 outside the sweep (exponential cost is the listed finding F01-1); cyclic @import graphs are the listed finding F01-2',
 ]
@@ -450,7 +456,8 @@ def check_cyc(case, ctx):
 
 # codecs that exist but are not text encodings, or are odd ones: naming them must behave like naming an unknown encoding
 ODD_CODECS = ['base64', 'hex', 'rot13', 'zlib', 'bz2', 'uu', 'quopri', 'css', 'undefined', 'unicode_escape', 'raw_unicode_escape',
-              'punycode', 'idna', 'utf-7', 'mbcs', 'string-escape', '', ' ', 'utf-8 ', 'UTF8', 'u8', 'latin_1', 'iso-8859-1\n']
+              'punycode', 'idna', 'utf-7', 'mbcs', 'string-escape', '', ' ', 'utf-8 ', 'UTF8', 'u8', 'latin_1', 'iso-8859-1\n',
+              'cp037', 'cp500', 'mac_arabic', 'iso2022_jp', 'raw_unicode_escape', '\\\x00', 'utf-8\\\x00']
 ENCODINGS = ['utf-8', 'utf-8-sig', 'utf-16', 'utf-16-le', 'utf-16-be', 'utf-32', 'latin-1', 'cp1252', 'koi8-r', 'shift_jis', 'ascii', 'gb2312']
 bytes_strategy = st.fixed_dictionaries({
     'text': st.lists(st.sampled_from(FRAGS[:60] + ['é', 'ä', '€', 'Ж', '中', 'あ']), min_size=1, max_size=12).map(' '.join),
@@ -496,7 +503,8 @@ def check_bytes(case, ctx):
             nt = False
         except ValueError as e:
             # the css codec cannot be its own encoding (pinned by the suite as ValueError)
-            if 'css not allowed as encoding name' not in str(e):
+            # ... and codecs.lookup answers ValueError, not LookupError, for a name with a NUL character: no encoding applies
+            if 'css not allowed as encoding name' not in str(e) and 'embedded null' not in str(e):
                 raise Violation('crash:bytes:' + frame_sig(e), f'{data[:200]!r} override={override}: {e!r}'[:500])
             ctx.event('rejected-unknown-encoding')
             nt = False
@@ -672,6 +680,13 @@ LONG = {
     'attr': lambda n: 'a' + '[b]' * n + '{top:0}',
     'not': lambda n: 'a' + ':not(b)' * n + '{top:0}',
     'style-attr-decls': lambda n: 'top:0;' * n,
+    'atkeywords': lambda n: '@a ' * n,
+    'atkeywords-in-block': lambda n: 'x{' + '@a ' * n + '}',
+    'atkeywords-in-unknown': lambda n: '@foo ' + '@a ' * n + ';',
+    'margin-values': lambda n: 'a{margin:' + ' 1px' * n + '}',
+    'background-values': lambda n: 'a{background:' + ' red' * n + '}',
+    'border-values': lambda n: 'a{border:' + ' solid' * n + '}',
+    'variables-many': lambda n: ''.join('@variables{x%d:1}' % i for i in range(min(n, 150))),
 }
 LONG_SIZES = {'quick': [30, 300, 1500], 'thorough': [30, 100, 300, 1000, 3000, 5000]}
 # sys.setprofile multiplies the run time: sizes from 3000 on run without the call meter and rely on the watchdog
@@ -737,3 +752,205 @@ def check_deffetch(case, ctx):
 
 
 SUBS.append(Sub('deffetch', check_deffetch, enumerate=deffetch_cases, shards_quick=1, shards_thorough=1))
+
+
+# --------------------------------------------------------------------------- exponential growth that no call meter sees (regular expressions, variable expansion)
+
+GROWTH = {
+    # family: (text(k), small k, large k): time must not explode between the two
+    'font-validation': (lambda k: 'a{font:' + 'normal ' * k + '}', 10, 14),
+    'variables-self-reference': (lambda k: '@variables{x:var(x) var(x)}' * k, 2, 3),
+    'escapes-in-open-string': (lambda k: 'a{x:"' + '\\e9' * k, 12, 20),
+    'comment-stars': (lambda k: '/*' + '*' * k, 16, 26),
+    'nonascii-ident-validation': (lambda k: 'a{page: ' + 'é' * k + ' 1}', 12, 20),
+}
+
+
+def _dag(depth):
+    "an acyclic import graph of depth+1 files: every level imports the next one twice"
+    def fetch(url):
+        i = int(url.rsplit('/', 1)[1].split('.')[0][1:])
+        if i >= depth:
+            return None, 'a{top:0}'
+        return None, '@import "l%d.css";@import "l%d.css?";' % (i + 1, i + 1)
+
+    return '@import "l1.css";@import "l1.css?";', fetch
+
+
+GROWTH['import-dag'] = (_dag, 8, 12)
+
+
+def growth_cases(tier):
+    for name in sorted(GROWTH):
+        yield {'family': name}
+
+
+def check_growth(case, ctx):
+    import time
+
+    make, k1, k2 = GROWTH[case['family']]
+    saved = cssutils.log.raiseExceptions
+    cssutils.log.raiseExceptions = False
+    try:
+        def cpu(k):
+            best = None
+            for _ in range(2):
+                t0 = time.process_time()
+                text = make(k)
+                if isinstance(text, tuple):
+                    text, fetcher = text
+                    cssutils.CSSParser(fetcher=fetcher).parseString(text, href='http://h/l0.css').cssText
+                else:
+                    cssutils.parseString(text).cssText
+                dt = time.process_time() - t0
+                best = dt if best is None else min(best, dt)
+            return best
+
+        with lib('growth'):
+            t1, t2 = cpu(k1), cpu(k2)
+    finally:
+        cssutils.log.raiseExceptions = saved
+    ctx.case(case['family'], True, {'family': case['family'], 'cpu_small': round(t1, 4), 'cpu_large': round(t2, 4)})
+    # the input grows by k2/k1 < 2: a polynomial of degree 5 multiplies the time by less than (k2/k1)**5 (at most 13 here),
+    # exponential behaviour by orders of magnitude
+    import math
+
+    degree = math.log(t2 / max(t1, 0.002)) / math.log(k2 / k1) if t2 > 0.4 else 0
+    if degree > 6:
+        raise Violation('growth:exponential:' + case['family'],
+                        f'{case["family"]}: {k1} units take {t1:.3f}s CPU, {k2} units {t2:.3f}s (as steep as degree {degree:.1f})')
+
+
+SUBS.append(Sub('growth', check_growth, enumerate=growth_cases, shards_quick=2, shards_thorough=2))
+
+
+# --------------------------------------------------------------------------- validation of repeated terms: the property tables are regular expressions,
+# a keyword that one of them can match in two ways makes the time double with every repetition when the value does not match at the end
+
+_WORDS = None
+
+
+def validation_words():
+    "keywords named anywhere in the profile tables (only a dictionary for the generator) plus one token of every kind"
+    global _WORDS
+    if _WORDS is None:
+        import re
+        import cssutils.profiles as P
+
+        srcs = []
+        for holder in (vars(P), vars(P.Profiles)):
+            for v in holder.values():
+                if isinstance(v, dict):
+                    for x in v.values():
+                        if isinstance(x, str):
+                            srcs.append(x)
+                        elif isinstance(x, dict):
+                            srcs.extend(y for y in x.values() if isinstance(y, str))
+        kw = set()
+        for s in srcs:
+            kw.update(re.findall(r'(?<![\\{a-zA-Z-])[a-zA-Z][a-zA-Z-]+(?![a-zA-Z}-])', s))
+        _WORDS = sorted(kw) + ['1px', '0', '1', '1.5', '-1', '"a"', 'url(a)', '1%', '#fff', '#aabbcc', 'a', 'a-b', '1s', '1deg', '1em', 'rgb(1,2,3)',
+                               'attr(a)', 'counter(a)', 'local(a)', 'format("a")', 'U+1-2', '\\1 ', 'é', '"\\""', '100', '1Hz', 'rect(0,0,0,0)']
+    return _WORDS
+
+
+def validation_props():
+    return sorted(set(cssutils.profile.knownNames))
+
+
+SEPS = [' ', ' ', ', ', ' / ', '', '-']
+TAILS = [' x-y', '', ' 1q', ' "s"', ' 0', ' f(1)']
+TOKENS = ['1px', '0', '1', '1.5', '-1', '"a"', 'url(a)', '1%', '#fff', 'a', '1s', '1deg', '1em', 'rgb(1,2,3)', 'attr(a)', 'counter(a)', '100']
+_OWN = {}
+
+
+def own_words(prop):
+    "keywords in the tables of this property itself (read from the compiled tables: only to aim the generator)"
+    if prop not in _OWN:
+        import re
+
+        kw = set()
+        for table in cssutils.profile._profilesProperties.values():
+            pattern = getattr(table.get(prop), 'pattern', '')
+            kw.update(w for w in re.findall(r'(?<![\\a-zA-Z-])[a-zA-Z][a-zA-Z-]+(?![a-zA-Z-])', pattern) if len(w) > 2)
+        _OWN[prop] = sorted(kw)[:400] or ['inherit']
+    return _OWN[prop]
+
+
+def validation_cases(tier):
+    words, props = validation_words(), validation_props()
+    for p in props:
+        if tier == 'thorough':
+            ws = words
+        else:
+            # a few repeated words that most tables name in more than one part, and some of the property's own
+            own = own_words(p)
+            ws = sorted({'inherit', 'none', 'normal', 'center', 'red', 'auto', '1px', '0'} | set(own[:: max(1, len(own) // 6)]))
+        for w in ws:
+            yield {'prop': p, 'words': [w], 'sep': ' ', 'tail': ' x-y', 'ctx': 'style'}
+        # one long word
+        yield {'prop': p, 'words': ['ab'], 'sep': '', 'tail': ' 1q', 'ctx': 'style'}
+        yield {'prop': p, 'words': ['a'], 'sep': '-', 'tail': ' 1q', 'ctx': 'style'}
+
+
+@st.composite
+def validation_strategy(draw):
+    prop = draw(st.sampled_from(validation_props()))
+    word = st.one_of(st.sampled_from(own_words(prop)), st.sampled_from(own_words(prop)), st.sampled_from(TOKENS), st.sampled_from(validation_words()))
+    return {
+        'prop': prop,
+        'words': draw(st.lists(word, min_size=1, max_size=3)),
+        'sep': draw(st.sampled_from(SEPS)),
+        'tail': draw(st.sampled_from(TAILS)),
+        'ctx': draw(st.sampled_from(['style', 'style', 'font-face', 'page'])),
+    }
+
+
+def _validation_text(case, k):
+    ws = case['words']
+    value = case['sep'].join(ws[i % len(ws)] for i in range(k)) + case['tail']
+    decl = f'{case["prop"]}: {value}'
+    if case['ctx'] == 'font-face':
+        return '@font-face{' + decl + '}'
+    if case['ctx'] == 'page':
+        return '@page{' + decl + '}'
+    return 'a{' + decl + '}'
+
+
+def check_validation(case, ctx):
+    import time
+
+    saved = cssutils.log.raiseExceptions
+    cssutils.log.raiseExceptions = False
+    try:
+        def cpu(k):
+            t0 = time.process_time()
+            sheet = cssutils.parseString(_validation_text(case, k))
+            sheet.cssText
+            sheet.valid
+            return time.process_time() - t0
+
+        with Records():
+            with lib('validation'):
+                # more and more terms until the time is measurable: a table that matches a term in b ways needs about b**k steps
+                # (b=5: 0.1 s at k=8), a sound one stays in the millisecond range up to the last size
+                slow = None
+                for k in (6, 8, 10, 12, 14, 16, 20, 40):
+                    t1 = cpu(k)
+                    if t1 > 0.25:
+                        slow = k
+                        t2 = cpu(k + 2)
+                        break
+    finally:
+        cssutils.log.raiseExceptions = saved
+    ctx.event('validation:' + case['ctx'])
+    ctx.case([case['prop'], case['words'], case['sep'], case['tail'], case['ctx']], True,
+             {'prop': case['prop'], 'value': _validation_text(case, 3), 'cpu_40_terms': round(t1, 4)})
+    # two more terms (at most a third more text): cubic behaviour stays below a factor 2.4, a doubling per term gives 4
+    if slow and t2 > 3 * t1:
+        raise Violation('growth:exponential-validation:' + case['prop'],
+                        f'{_validation_text(case, 3)!r}: {slow} terms take {t1:.2f}s CPU, {slow + 2} terms {t2:.2f}s')
+
+
+SUBS.append(Sub('validation', check_validation, enumerate=validation_cases, shards_quick=8, shards_thorough=16, budget_quick=120, budget_thorough=3000))
+SUBS.append(Sub('validation-mixed', check_validation, strategy=validation_strategy(), quick=4000, thorough=300000, shards_quick=8, budget_quick=60))
